@@ -7,4 +7,5 @@ CONSTANTS
   RleAlpha = {"a", "0", "-", "_", "+", "A", "!", "."}
   RleLens = {1, 2, 10, 11, 40, 41}
   RleMaxRuns = 3
+  TagLevel = 2
 CHECK_DEADLOCK FALSE
